@@ -40,7 +40,7 @@ def main():
             'serves_properties': sorted(U.PROPS),
             'kind_free_text': 'contract-based deductive verification: functions extracted mechanically from /repo on every run, '
                               'contracts injected from contracts/*.vx, discharged by Verus (unbounded) and Kani/CBMC '
-                              '(complete loop-free harnesses; bounded harnesses labelled bounded)',
+                              '(complete loop-free harnesses; bounded harnesses labelled bounded); where neither verifier can take the code (regex, Cap\'n Proto, String / HashMap / BTreeMap, dyn dispatch) the extracted functions are compiled natively and enumerated over a stated pool (bounded stand-ins, labelled bounded, never counted as discharged)',
         }],
         'checks': checks,
         'not_applicable': na,
